@@ -202,7 +202,7 @@ package hashprefix
 // requester's own settings produce - built by the requester's constructor
 // (blocking mode, filtered-response TTL), whoever filled the cache.
 //@   ensures a-blocked-answer-is-built-by-the-requesters-own-constructor: err == nil && isptr(r, internal.ResultModifiedResponse) ==> blockedBy[asptr(r, internal.ResultModifiedResponse).Msg] == old(req.Messages)
-//@   atcall filteredResult assert a-match-is-a-listed-name: exists j int :: 0 <= j && j < hsubsLen(req.Host) && listedNow(f.hashes, hsubsAt(req.Host, j))
+//@   atcall filteredResult assert a-match-is-a-listed-name: exists j int :: {idx(j)} idx(j) && 0 <= j && j < hsubsLen(req.Host) && listedNow(f.hashes, hsubsAt(req.Host, j))
 //@   atcall clonedResult set lastVerdictVer = itemVer[item]
 //@   atcall Matches set lastVerdictVer = hsVer[f.hashes]
 //@   atcall Set set itemVer[arg2] = hsVer[f.hashes]
